@@ -587,7 +587,7 @@ fn check(c: &Case, info: &mut CaseInfo) -> CheckResult {
                     b[i] = 0;
                     // overwriting one byte of a multi-byte character with NUL leaves invalid UTF-8 or a NUL: both refused
                     must_reject(&d, &root.name, &b, "text with NUL accepted", format!("NUL at offset {i}"))?;
-                    for bad in [0xffu8, 0xc0, 0x80] {
+                    for bad in [0xffu8, 0xc0, 0xfe] {
                         let mut b = want.clone();
                         b[pos + len - 1] = bad;
                         must_reject(&d, &root.name, &b, "text with invalid UTF-8 accepted", format!("byte {bad:#x} at offset {}", pos + len - 1))?;
